@@ -104,6 +104,42 @@ MemChr(s, c, n) ==
     IF \E i \in 1..n : CharAt(s, i) = cc THEN (CHOOSE i \in 1..n : CharAt(s, i) = cc /\ \A j \in 1..(i - 1) : CharAt(s, j) # cc) - 1
     ELSE -1
 
+(* ------------------------------- algorithms on sequences of (byte) elements ------------------------------- *)
+\* elements are integers (the VALUES of the char / signed char / unsigned char elements): the order is the order of
+\* the values, never of the representations ([alg.lex.comparison], [alg.equal], [mismatch], ... and the container
+\* relational operators defined through them)
+RECURSIVE LexLtFrom(_, _, _)
+LexLtFrom(a, b, i) ==
+    IF i > Len(b) THEN FALSE
+    ELSE IF i > Len(a) THEN TRUE
+    ELSE IF a[i] < b[i] THEN TRUE
+    ELSE IF b[i] < a[i] THEN FALSE
+    ELSE LexLtFrom(a, b, i + 1)
+LexLt(a, b) == LexLtFrom(a, b, 1)
+MinLen(a, b) == IF Len(a) < Len(b) THEN Len(a) ELSE Len(b)
+MismatchAt(a, b) ==      \* 0-based offset of the first difference within the common length, else the common length
+    IF \E i \in 1..MinLen(a, b) : a[i] # b[i] THEN (CHOOSE i \in 1..MinLen(a, b) : a[i] # b[i] /\ \A j \in 1..(i - 1) : a[j] = b[j]) - 1
+    ELSE MinLen(a, b)
+FindAt(a, v) == IF \E i \in 1..Len(a) : a[i] = v THEN (CHOOSE i \in 1..Len(a) : a[i] = v /\ \A j \in 1..(i - 1) : a[j] # v) - 1 ELSE Len(a)
+CountOf(a, v) == Cardinality({i \in 1..Len(a) : a[i] = v})
+MinAt(a) == IF Len(a) = 0 THEN 0 ELSE (CHOOSE i \in 1..Len(a) : (\A j \in 1..Len(a) : a[i] <= a[j]) /\ (\A j \in 1..(i - 1) : a[i] < a[j])) - 1
+MaxAt(a) == IF Len(a) = 0 THEN 0 ELSE (CHOOSE i \in 1..Len(a) : (\A j \in 1..Len(a) : a[j] <= a[i]) /\ (\A j \in 1..(i - 1) : a[j] < a[i])) - 1
+RelOps(a, b) == <<B2I(a = b), B2I(a # b), B2I(LexLt(a, b)), B2I(~LexLt(b, a)), B2I(LexLt(b, a)), B2I(~LexLt(a, b))>>
+\* float elements as codes 0: -0.0, 1: +0.0, 2: 1.0, 3: NaN ;  == on the values
+FltEq(i, j) == i # 3 /\ j # 3 /\ (i = j \/ {i, j} = {0, 1})
+BytesDef(fn, a) ==
+    CASE fn = "lexicographical_compare" -> <<B2I(LexLt(a[1], a[2]))>>
+      [] fn = "equal" -> <<B2I(a[1] = a[2])>>
+      [] fn = "mismatch" -> <<MismatchAt(a[1], a[2]), MismatchAt(a[1], a[2])>>
+      [] fn = "find" -> <<FindAt(a[1], a[3][1])>>
+      [] fn = "count" -> <<CountOf(a[1], a[3][1])>>
+      [] fn \in {"copy", "move"} -> [i \in 1..5 |-> IF i = 5 THEN Len(a[1]) ELSE IF i <= Len(a[1]) THEN a[1][i] ELSE a[2][i]]
+      [] fn = "fill" -> [i \in 1..4 |-> IF i <= Len(a[1]) THEN a[3][1] ELSE a[2][i]]
+      [] fn = "min_element" -> <<MinAt(a[1])>>
+      [] fn = "max_element" -> <<MaxAt(a[1])>>
+      [] fn \in {"vector_relops", "array_relops"} -> RelOps(a[1], a[2])
+      [] fn = "equal_flt" -> <<B2I(Len(a[1]) = Len(a[2]) /\ \A i \in 1..Len(a[1]) : FltEq(a[1][i], a[2][i]))>>
+
 (* ------------------------------------- dispatch: definition of a call ------------------------------------- *)
 \* op names carry the instantiation:  popcount_u8, byteswap_u32, add_sat_i8, floor_f, lrint_d, ...
 \* HasDef(op): an exact definition exists here;  Def(op, a): the expected result (sequence of integers)
@@ -123,6 +159,7 @@ HasDef(ev) ==
       [] ev.fam = "sat" -> ev.fn \in SatOps
       [] ev.fam = "str" -> ev.fn \in StrOps
       [] ev.fam = "bitcast" -> TRUE
+      [] ev.fam = "bytes" -> TRUE
       [] ev.fam = "flt" -> ev.fn \in (FloatUnary \cup {"copysign", "fmin", "fmax", "nextafter"}) \ {"lround", "llround"}
       [] OTHER -> FALSE
 
@@ -149,6 +186,7 @@ DefOK(ev, r) ==
               [] ev.fn = "strrchr" -> r = <<StrRChr(ev.a[1], ev.a[2][1])>>
               [] ev.fn = "memchr" -> r = <<MemChr(ev.a[1], ev.a[2][1], ev.a[3][1])>>)
       [] ev.fam = "bitcast" -> IF ev.fn = "f32_to_u32" THEN r = F32Bits(ev.a[1]) ELSE r = BitsF32(ev.a[1])
+      [] ev.fam = "bytes" -> r = BytesDef(ev.fn, ev.a)
       [] ev.fam = "flt" ->
             LET f == IF ev.p = "f" THEN F32 ELSE F64 x == FV(f, ev.a[1]) IN
             (CASE ev.fn \in ExactUnaryFp -> Same(f, FV(f, r), UnaryFp(f, ev.fn, x))
